@@ -496,7 +496,7 @@ impl Prop for C10 {
         "C10"
     }
     fn cases(&self) -> (u64, u64) {
-        (20_000, 800_000)
+        (80_000, 800_000)
     }
     fn rule(&self) -> &'static str {
         "choice bytes -> broad definition (adjacent groups, alternatives, subcommands, hidden items, \
